@@ -44,8 +44,8 @@ func init() {
 		ID: "C15",
 		Explanation: "Decides structural necessary conditions of token-set resolution: SIBLING(resolvesets): each work-list case of syntax.ResolveSets (any/first/last/precede/follow) instantiates the sets its definition needs, walks the rule in the right direction from the right position, stops after the first non-nullable symbol (polarity of the nullable test) and falls through to the enclosing nonterminal only when the walk was not stopped. MUSTPASS(set-contribution): in the any/first/last cases every rule reaches the rules[r].set test (set-defined nonterminals are empty rules carrying a set). " +
 			"SHARED: an in-place, self-dependent rewrite of TokenSet nodes inside a per-set traversal consults a visited set that outlives one traversal (nodes are shared between named sets). CYCLE: every recursion over *syntax.TokenSet (cyclic for mutually recursive named sets) is cut by a visited set keyed by the node. ALIAS/ESCAPE: scratch buffers of the set closure never alias an operand and buffer-backed slices are not retained. GUARD(complcycle): complement-on-cycle is reported exactly under op==complement ∧ onStack. DTX(setalg) as in C25. " +
-			"Not decided: that the fixpoint equals the definitional sets, Nullable(), reachability from the first input. LOOPSHAPE(first-input): syntax.rules leaves the loop over m.Inputs right after it enqueued the first end-of-input input (sets are computed over what the first input reaches, not over every input). GUARD(set-alias): in the second pass over named sets the node whose content is copied into a set's slot is fresh or known not to be another named set's slot (named sets may refer to sets declared later).",
-		Rules: []string{"SIBLING(resolvesets)", "MUSTPASS(set-contribution)", "CYCLE", "SHARED", "ALIAS", "ESCAPE", "GUARD(complcycle)", "DTX(setalg)", "GUARD(unionclone)", "LOOPSHAPE(first-input)", "GUARD(set-alias)"},
+			"Not decided: that the fixpoint equals the definitional sets, Nullable(), reachability from the first input. LOOPSHAPE(first-input): syntax.rules leaves the loop over m.Inputs right after it enqueued the first end-of-input input (sets are computed over what the first input reaches, not over every input). GUARD(set-alias): in the second pass over named sets the node whose content is copied into a set's slot is fresh or known not to be another named set's slot (named sets may refer to sets declared later). DTX(nullable): isNullable, evaluated for every expression kind and every valuation of its operands (32 cells), is the documented table (wrappers Assign/Append/Arrow/Prec and `+` lists are as nullable as their operand, Choice = any, Sequence = all, Reference = membership).",
+		Rules: []string{"SIBLING(resolvesets)", "MUSTPASS(set-contribution)", "CYCLE", "SHARED", "ALIAS", "ESCAPE", "GUARD(complcycle)", "DTX(setalg)", "GUARD(unionclone)", "LOOPSHAPE(first-input)", "GUARD(set-alias)", "DTX(nullable)"},
 		Run: func(c *Ctx) {
 			ruleRESOLVESETS(c)
 			ruleSETCONTRIB(c)
@@ -59,6 +59,7 @@ func init() {
 			ruleSETEQ(c)
 			ruleFIRSTINPUT(c)
 			ruleSETALIAS(c)
+			ruleNULLABLEDTX(c)
 		},
 	})
 }
@@ -365,8 +366,8 @@ func init() {
 	register(&Property{
 		ID: "C20",
 		Explanation: "Decides structural necessary conditions of 'parse events form a well-nested tree': VARIANT(flush-after-extend): in recoverFromError the error node is flushed only after its range was extended over pending invalid tokens (otherwise tokens inside the node are reported after it). VARIANT(trim-trailing-empty): every parse loop that trims trailing empty symbols does so in a loop (all of them), so a node never runs into following whitespace/comments that are still pending. " +
-			"STACKIDX: reported ranges are non-empty sub-ranges of the rule. Not decided: the tree builder, nesting under recovery in general. INITCOV: every field of Lexer/Parser/TokenStream that another method modifies is assigned on every path by Init (or by the first block of parse()), so no run state of an earlier input (pending tokens of a cancelled parse) reaches the next input's event stream; four audited exemptions. INITCOV: every field of Lexer/Parser/TokenStream that another method modifies is assigned on every path by Init (or by the first block of parse()), so no run state of an earlier input (pending tokens of a cancelled parse) reaches the next input's event stream; audited exemptions are listed in the rule. GUARD(root-adopts-all): builder.build() of each generated ast package either fails unless one node is left on the stack or adds the file node with an end offset beyond the input, so that every reported node (an empty node at the very end included) is in the tree. GUARD(sibling-boundary) as in C21. TMPL(switch-guard) as in C02 (whitespace trimming is generated for every grammar that needs it). LOOPSHAPE(marker-transparent): the predicates that decide where a rule's reported range ends (HasTrailingNulls and siblings) look through state markers, so fixTrailingWS is generated for `X: a Nullable .marker` too (otherwise the node runs into the following whitespace and is reported before the comments inside it). BOUND(trim-floor) as in C02.",
-		Rules: []string{"INITCOV", "VARIANT", "STACKIDX", "GUARD(root-adopts-all)", "GUARD(sibling-boundary)", "TMPL(switch-guard)", "LOOPSHAPE(marker-transparent)", "BOUND(trim-floor)"},
+			"STACKIDX: reported ranges are non-empty sub-ranges of the rule. Not decided: the tree builder, nesting under recovery in general. INITCOV: every field of Lexer/Parser/TokenStream that another method modifies is assigned on every path by Init (or by the first block of parse()), so no run state of an earlier input (pending tokens of a cancelled parse) reaches the next input's event stream; four audited exemptions. INITCOV: every field of Lexer/Parser/TokenStream that another method modifies is assigned on every path by Init (or by the first block of parse()), so no run state of an earlier input (pending tokens of a cancelled parse) reaches the next input's event stream; audited exemptions are listed in the rule. GUARD(root-adopts-all): builder.build() of each generated ast package either fails unless one node is left on the stack or adds the file node with an end offset beyond the input, so that every reported node (an empty node at the very end included) is in the tree. GUARD(sibling-boundary) as in C21. TMPL(switch-guard) as in C02 (whitespace trimming is generated for every grammar that needs it). LOOPSHAPE(marker-transparent): the predicates that decide where a rule's reported range ends (HasTrailingNulls and siblings) look through state markers, so fixTrailingWS is generated for `X: a Nullable .marker` too (otherwise the node runs into the following whitespace and is reported before the comments inside it). BOUND(trim-floor) as in C02. SIBLING(flush-bound): every flush implementation (token streams of tm/js, Parser.flush of json/test) stops at the first pending token that ends after the symbol's end (tok.endoffset > sym.endoffset), so tokens inside a node are reported before it.",
+		Rules: []string{"INITCOV", "VARIANT", "STACKIDX", "GUARD(root-adopts-all)", "GUARD(sibling-boundary)", "TMPL(switch-guard)", "LOOPSHAPE(marker-transparent)", "BOUND(trim-floor)", "SIBLING(flush-bound)"},
 		Run: func(c *Ctx) {
 			ruleINITCOV(c, "TokenStream", "Lexer", "Parser")
 			ruleSWITCHGUARD(c)
@@ -376,6 +377,7 @@ func init() {
 			ruleSTACKIDX(c)
 			ruleMARKERLOOPS(c)
 			ruleTRIMFLOOR(c)
+			ruleFLUSHBOUND(c)
 		},
 	})
 }
@@ -485,14 +487,15 @@ func init() {
 	register(&Property{
 		ID: "C13",
 		Explanation: "Decides one structural necessary condition of 'desugaring preserves the language': DTX(expr-equal): Expand reuses an already extracted nonterminal for a sub-expression (lists, optionals, nested choices) when names match and (*Expr).Equal says the expressions are the same; the check evaluates Equal abstractly for every expression kind and requires that a difference in any component of the kind (symbol, arguments, every sub-expression including a list's separator, list flags, names, arrow flags, predicate, set index) makes it false and identical components make it true. " +
-			"LOOPSHAPE(marker-transparent): markers never hide symbols of a rule. Not decided: the expansion rules themselves (which productions a list/optional/choice turns into) — language equivalence of those is algorithmic and out of reach for this technique; two of the four independently seeded C13/C14 regressions are of that kind and are not detected (recorded in DESIGN.md). SIBLING(list-recursion): every rule Expand builds for a list places the recursive reference (and the separator) on the side the RightRecursive flag asks for; a placement that does not consult the flag is a violation. GUARD(drop-empty): where a Sub list is rebuilt, a child that became Empty is left out only under parent.Kind == Sequence (dropped from a Choice, an explicit %empty alternative disappears from the language). COPY(struct-slices): a value copy of an expression node (report.apply copies the arrow template) gets its own Sub list before it becomes reachable by or(), which appends to Sub in place. LOSTWRITE(range-copy): stores into fields of range copies of struct elements in syntax/ and compiler/ are observable.",
-		Rules: []string{"DTX(expr-equal)", "SIBLING(list-recursion)", "LOOPSHAPE(marker-transparent)", "BOUNDARY(terminals)", "GUARD(drop-empty)", "COPY(struct-slices)", "LOSTWRITE(range-copy)"},
+			"LOOPSHAPE(marker-transparent): markers never hide symbols of a rule. Not decided: the expansion rules themselves (which productions a list/optional/choice turns into) — language equivalence of those is algorithmic and out of reach for this technique; two of the four independently seeded C13/C14 regressions are of that kind and are not detected (recorded in DESIGN.md). SIBLING(list-recursion): every rule Expand builds for a list places the recursive reference (and the separator) on the side the RightRecursive flag asks for; a placement that does not consult the flag is a violation. GUARD(drop-empty): where a Sub list is rebuilt, a child that became Empty is left out only under parent.Kind == Sequence (dropped from a Choice, an explicit %empty alternative disappears from the language). COPY(struct-slices): a value copy of an expression node (report.apply copies the arrow template) gets its own Sub list before it becomes reachable by or(), which appends to Sub in place. LOSTWRITE(range-copy): stores into fields of range copies of struct elements in syntax/ and compiler/ are observable. DTX(nullable) as in C15 (set(...) references are resolved over nullable symbols).",
+		Rules: []string{"DTX(expr-equal)", "SIBLING(list-recursion)", "LOOPSHAPE(marker-transparent)", "BOUNDARY(terminals)", "GUARD(drop-empty)", "COPY(struct-slices)", "LOSTWRITE(range-copy)", "DTX(nullable)"},
 		Run: func(c *Ctx) {
 			ruleEXPREQUAL(c)
 			ruleLISTRECURSION(c)
 			ruleMARKERLOOPS(c)
 			ruleMARKERLOOPSAST(c)
 			ruleDROPEMPTY(c)
+			ruleNULLABLEDTX(c)
 			ruleSTRUCTCOPY(c, "compiler", "syntax")
 			ruleLOSTWRITE(c, "syntax", "compiler")
 		},
